@@ -235,9 +235,10 @@ class MVInterpCond(_NoReplay):
 class MVInterpScan(_NoReplay):
     """scan: body re-interpreted per iteration with the dummy threaded through the carry; consts/carry/xs plumbing"""
 
-    cases = ["forward"]
+    cases = ["forward", "reverse"]
 
     def call(self, case):
+        self.rev = case == "reverse"
         self.axis = Sym(fresh("axis_size", z3.IntSort()))
         self.dummy = Tensor.fresh("dummy", (self.axis.e,), z3.IntSort())
         self.s = S.Site()
@@ -248,7 +249,7 @@ class MVInterpScan(_NoReplay):
         k, c0, xs, fc, ys = (J.Var(n) for n in ("k", "c0", "xs", "fc", "ys"))
         self.vk, self.vc0 = value("const"), value("carry0")
         self.vxs = Tensor.fresh("xs", (self.T,), V)
-        params = {"jaxpr": body, "length": Sym(self.T), "reverse": False, "unroll": 1, "num_consts": 1, "num_carry": 1, "linear": None}
+        params = {"jaxpr": body, "length": Sym(self.T), "reverse": self.rev, "unroll": 1, "num_consts": 1, "num_carry": 1, "linear": None}
         jp = J.Jaxpr([], [k, c0, xs], [J.Eqn(J.scan_p, [k, c0, xs], [fc, ys], params)], [fc, ys])
         return self.real(pjax.ModularVmap.eval_jaxpr_modular_vmap, self.axis, jp, [], [self.vk, self.vc0, self.vxs], self.dummy)
 
@@ -262,6 +263,8 @@ class MVInterpScan(_NoReplay):
             return
         rec = scans[0]
         t = rec["t"]
+        yield "scan_direction_preserved", bool(rec["reverse"]) == self.rev
+        pos = (self.T - 1 - t) if self.rev else t
         b = self.s.binds
         yield "body_site_rebound_once_per_generic_iteration", len(b) == 1
         if len(b) != 1:
@@ -273,7 +276,7 @@ class MVInterpScan(_NoReplay):
         yield "dummy_threaded_through_carry", teq(args[0], carry_t[0])
         yield "dummy_initialised", rec["init"][0] is self.dummy
         yield "dummy_carried_unchanged", teq(rec["new_carry"][0], carry_t[0])
-        yield "operands_are_consts_carry_x", args[1] is self.vk and same(args[2], carry_t[1]) and same(args[3], Sym(self.vxs.fn((t,))))
+        yield "operands_are_consts_carry_x", args[1] is self.vk and same(args[2], carry_t[1]) and same(args[3], Sym(self.vxs.fn((pos,))))
         yield "context_passed", params.get("ctx") == "modular_vmap" and params.get("axis_size") is self.axis
 
 
